@@ -11,6 +11,8 @@ from .c03 import interp, bracket, esc, klass, RX
 
 def check(run):
     p = run.prog
+    from . import rexpy_eval
+    run.attempt(rexpy_eval.run_rule, run, p, 'C13')
     I = interp(p)
     flags = p.const('tdda.rexpy.rexpy', 'RE_FLAGS')
     run.attempt(anchor, run, p)
